@@ -31,7 +31,7 @@ TOL = 1e-11
 
 
 def budget(tier):
-    return {"examples": 5000 if tier == "quick" else 60000, "shards": 16, "shrink": 150 if tier == "quick" else 600}
+    return {"examples": 10000 if tier == "quick" else 100000, "shards": 16, "shrink": 150 if tier == "quick" else 600}
 
 
 # ----------------------------------------------------------------------------------------------------------------
